@@ -1209,6 +1209,38 @@ static int spawner_done;
 static uint64_t ep_first_lock_traps, ep_exit_traps, ep_handler_registered, ep_sync_first, ep_sync_first_pending_seen;
 static size_t bp_baseline_used;
 
+/* A pthread key created after the library's constructor: its destructor runs after liburcu-bp's own
+ * thread-exit destructor has unregistered the thread.  A read-side section there (taken directly, and by a
+ * signal handler raised at that point) must register the thread again and be waited for like any other. */
+static pthread_key_t late_key;
+static int late_key_ok;
+static uint64_t late_dtor_runs, late_dtor_after_bp_unregister, late_dtor_handler_runs;
+static void late_dtor(void *p)
+{
+	struct thr *t = p;
+	late_dtor_runs++;
+	if (!rd_registered())
+		late_dtor_after_bp_unregister++;
+	if (VP_LOAD(g_hviol) || vp_nviolations())
+		return;
+	/* (1) a handler with a read-side section, raised right here */
+	uint64_t a0 = t->async_total;
+	VP_STORE(t->sig_ok, 1);
+	raise(SIGUSR1);
+	VP_STORE(t->sig_ok, 0);
+	late_dtor_handler_runs += t->async_total - a0;
+	/* (2) a section held across grace periods */
+	c19_w_read_lock();
+	struct obj *o = c19_w_dereference(&slots[vp_rand_n(&t->rng, NSLOTS)]);
+	validate(o, "late TLS destructor: deref");
+	uint64_t t0 = vp_now_ns(), len = 200000 + vp_rand_n(&t->rng, 2500000);
+	while (vp_now_ns() - t0 < len) {
+		vp_spin_cycles(20000);
+		validate(o, "late TLS destructor: inside the section");
+	}
+	c19_w_read_unlock();
+}
+
 static void *episode_thread(void *arg)
 {
 	struct thr *t = arg;
@@ -1217,6 +1249,8 @@ static void *episode_thread(void *arg)
 	(void) vp_self();
 	VP_STORE(t->sig_ok, 1);
 	set_alive(t, 1);
+	if (late_key_ok && vp_rand_n(&t->rng, 3) == 0)
+		pthread_setspecific(late_key, t);
 	uint64_t tr0 = t->traps_total;
 	if (vp_rand_n(&t->rng, 3) == 0)
 		vp_spin_cycles(vp_rand_n(&t->rng, 200000));	/* an asynchronous handler may register the thread first */
@@ -1924,6 +1958,9 @@ int main(int argc, char **argv)
 	sa.sa_sigaction = async_handler;
 	sa.sa_flags = SA_SIGINFO | SA_NODEFER;	/* no SA_RESTART: real EINTR in futex waits */
 	sigaction(SIGUSR1, &sa, NULL);
+#if VP_IS_BP
+	late_key_ok = !pthread_key_create(&late_key, late_dtor);
+#endif
 
 	vp_quar_init(&quar, 1 << 16, obj_release);
 	for (int k = 0; k < NSLOTS; k++)
@@ -2086,6 +2123,9 @@ int main(int argc, char **argv)
 	vp_counter_add("bp_episode_total_traps", ep_exit_traps);
 	vp_counter_add("bp_episode_registered_by_async_handler", ep_handler_registered);
 	vp_counter_add("bp_episode_first_operation_is_synchronize_rcu", ep_sync_first);
+	vp_counter_add("bp_episode_late_tls_destructor_sections", late_dtor_runs);
+	vp_counter_add("bp_episode_late_tls_destructor_after_library_unregistered_the_thread", late_dtor_after_bp_unregister);
+	vp_counter_add("bp_episode_late_tls_destructor_handler_sections", late_dtor_handler_runs);
 	vp_counter_add("bp_episode_sync_first_with_signals_during_the_call", ep_sync_first_pending_seen);
 #endif
 	if (opt_step && thr[0].traps_total == 0 && !vp_nviolations()) {
